@@ -94,10 +94,71 @@ def norm_key(fn, e, depth=0):
     return au.src(e).replace(' ', '')
 
 
+def ite_key_equivalent(fn, read_key, write_key, store):
+    """For a memo of ite(g, u, v): does the additionally stored key
+    (a triple of the operands, possibly negated and permuted) together
+    with the stored value denote the same function as the looked-up key
+    with the value stored under it?  Decided by truth tables; False when
+    the keys are not triples of +-operands."""
+    from .. import minieval as me
+
+    def resolve(e):
+        if isinstance(e, ast.Name):
+            defs = [s for s in au.walk_no_defs(fn)
+                    if isinstance(s, ast.Assign) and len(s.targets) == 1
+                    and au.is_name(s.targets[0], e.id)]
+            if len(defs) == 1 and isinstance(defs[0].value, ast.Tuple):
+                return defs[0].value
+        return e
+    rk, wk = resolve(read_key), resolve(write_key)
+    if not (isinstance(rk, ast.Tuple) and isinstance(wk, ast.Tuple)
+            and len(rk.elts) == 3 and len(wk.elts) == 3):
+        return False
+    names = []
+    for e in rk.elts:
+        if not isinstance(e, ast.Name):
+            return False
+        names.append(e.id)
+
+    def lit(e):
+        neg = False
+        while isinstance(e, ast.UnaryOp) and isinstance(e.op, ast.USub):
+            neg = not neg
+            e = e.operand
+        if isinstance(e, ast.Name) and e.id in names:
+            v = ('sym', e.id)
+            return ('not', v) if neg else v
+        return None
+    lits = [lit(e) for e in wk.elts]
+    if None in lits:
+        return False
+    # value stored under the extra key: the same name as under the
+    # looked-up key, or its negation
+    par = getattr(store, '_parent', None)
+    val = par.value if isinstance(par, ast.Assign) else None
+    main = [s for s in au.walk_no_defs(fn) if isinstance(s, ast.Assign)
+            and isinstance(s.targets[0], ast.Subscript)
+            and norm_key(fn, s.targets[0].slice) == norm_key(fn, read_key)]
+    if val is None or not main:
+        return False
+    neg_val = False
+    while isinstance(val, ast.UnaryOp) and isinstance(val.op, ast.USub):
+        neg_val = not neg_val
+        val = val.operand
+    if au.src(val) != au.src(main[0].value):
+        return False
+    a = ('ite', ('sym', names[0]), ('sym', names[1]), ('sym', names[2]))
+    b = ('ite', lits[0], lits[1], lits[2])
+    if neg_val:
+        b = ('not', b)
+    return me.table(a, tuple(names)) == me.table(b, tuple(names))
+
+
 def analyse_memo(R, f, spec):
     fn = f.node
     q = f.qualname
     memo = spec['memo']
+    au.set_parents(fn)
     reads, writes, members = [], [], []
     for n in au.walk_no_defs(fn):
         if isinstance(n, ast.Subscript) and memo_matches(n.value, memo):
@@ -124,6 +185,12 @@ def analyse_memo(R, f, spec):
             'R-MEMO', 'key-mismatch', q, memo,
             f'the memo is read with key {sorted(rkeys)} but written with '
             f'key {sorted(wkeys)}', unit=f.unit.rel, line=f.lineno)
+    elif rkeys and not wkeys <= rkeys and all(
+            ite_key_equivalent(fn, rd, w.slice, w) for w in writes
+            if norm_key(fn, w.slice) not in rkeys for rd in reads[:1]):
+        R.holds('R-MEMO', q, f'memo `{memo}`: an additional entry is '
+                'stored under a key that denotes the same ite (truth '
+                'tables)')
     elif rkeys and not wkeys <= rkeys:
         extra = sorted(wkeys - rkeys)
         w0 = [w for w in writes if norm_key(fn, w.slice) in extra][0]
